@@ -388,6 +388,16 @@ func parentMain(prop string) int {
 	}
 	defer os.RemoveAll(tmp)
 	stop := filepath.Join(tmp, "stop")
+	// per-worker scratch for the real files of the code under test (WAL,
+	// validator key file, kv wal): on tmpfs when available, fsync is the
+	// dominant cost otherwise
+	scratchBase := tmp
+	if st, err := os.Stat("/dev/shm"); err == nil && st.IsDir() {
+		if d, err := os.MkdirTemp("/dev/shm", "verif-"+prop+"-"); err == nil {
+			scratchBase = d
+			defer os.RemoveAll(d)
+		}
+	}
 
 	fmt.Printf("SEED %d property=%s rig=%s tier=%s runs=%d workers=%d budget=%s\n", base, prop, rig.Name, tier, runs, W, budget)
 
@@ -418,7 +428,7 @@ func parentMain(prop string) int {
 					"VERIF_DEADLINE="+strconv.FormatInt(deadline.Unix(), 10),
 					"VERIF_OUT="+outs[w],
 					"VERIF_STOP="+stop,
-					"VERIF_SCRATCH="+filepath.Join(tmp, fmt.Sprintf("scratch%d", w)),
+					"VERIF_SCRATCH="+filepath.Join(scratchBase, fmt.Sprintf("scratch%d", w)),
 					"GOMAXPROCS="+strconv.Itoa(procs),
 				)
 				logf, _ := os.Create(filepath.Join(tmp, fmt.Sprintf("w%d.log", w)))
@@ -485,7 +495,7 @@ func parentMain(prop string) int {
 		// confirm in a fresh process
 		cmd := exec.Command(exe, "-test.run", "^TestSim$", "-test.count=1", "-test.timeout=0")
 		cmd.Env = append(os.Environ(), "VERIF_MODE=replay", "VERIF_REPLAY="+rp, "GOMAXPROCS="+strconv.Itoa(procs),
-			"VERIF_SCRATCH="+filepath.Join(tmp, "scratch-replay"))
+			"VERIF_SCRATCH="+filepath.Join(scratchBase, "scratch-replay"))
 		outb, err := cmd.CombinedOutput()
 		code := 0
 		if ee, ok := err.(*exec.ExitError); ok {
